@@ -161,6 +161,9 @@ def purity_c13(cfg):
     if cfg["kind"] == "statio":
         # the stationary normalisation term pairs sample j with parameter row j (DESIGN.md, C12 scope): same count
         cfg = dict(cfg, norm={k: [[0.25 * (i + 1)] for i in range(n)] for k in cfg["ukeys"]})
+    if len(cfg["ekeys"]) >= 2:
+        # per-equation weights written in another key order than the equations, with distinct values
+        cfg = dict(cfg, w=dict(cfg["w"], dyn_loss=("dict", {k: 1.0 + 0.5 * i for i, k in enumerate(reversed(cfg["ekeys"]))})))
     us, PD, L, batch, singles, obs = M.build(cfg)
     batch = jinns.data.append_param_batch(batch, {"junk": jnp.arange(n, dtype=float)[:, None] + 2.0})
     return check_loss(f"system loss ({cfg['kind']}) with a parameter batch", L, PD, batch, dict(what="system", cfg=M.jsonable(cfg)))
